@@ -123,11 +123,13 @@ def run_steps(docs, steps, version='4.2.1', via_version=None):
         from vakt.storage.migration import Migrator
         ms = vm.MongoMigrationSet(h.storage)
         ms.save_applied_number(via_version)
+        # two long-lived drivers over the same database take turns (an application and an operator's shell)
+        drivers = [Migrator(ms), Migrator(vm.MongoMigrationSet(h.storage))]
     try:
-        for s in steps:
+        for k, s in enumerate(steps):
             cap.records = []
             if ms is not None:
-                getattr(Migrator(ms), s[:-1])(int(s[-1]))
+                getattr(drivers[k % 2], s[:-1])(int(s[-1]))
             else:
                 m = migration(h.storage, int(s[-1]))
                 getattr(m, s[:-1])()
